@@ -12,6 +12,58 @@ STRUCT = list(";,{}()<>[]")
 RESERVED = ["COMMENT", "INCLUDE", "STRINGLITERAL", "EXPRESSION", "_variables", "_includes"]
 
 
+# characters str.splitlines() treats as line boundaries although no reader stage does (and `\s` matches them)
+LINESEPS = ["\x0b", "\x0c", "\x1c", "\x1d", "\x1e", "\x85", "\u2028", "\u2029"]
+CODECS = ["latin-1", "utf-16", "ascii", "cp1252", "utf-8", "utf-8-sig", "iso8859-15", "cp437"]
+_VOCAB: list[str] | None = None
+
+
+def source_vocab() -> list[str]:
+    """word-like string constants of the library source itself (header keys, option names, tags, suffixes, ...): data that
+    looks like something the library treats specially.  Read from the tree under test at run time; a generator input only."""
+    global _VOCAB
+    if _VOCAB is None:
+        import ast
+        import re
+        from pathlib import Path
+        import dictIO
+        words: set[str] = set()
+        for f in sorted(Path(dictIO.__file__).parent.rglob("*.py")):
+            try:
+                t = ast.parse(f.read_text(encoding="utf-8"))
+            except Exception:  # noqa: BLE001
+                continue
+            doc = {id(b.body[0].value) for b in ast.walk(t)
+                   if isinstance(b, (ast.Module, ast.ClassDef, ast.FunctionDef)) and b.body and isinstance(b.body[0], ast.Expr)}
+            for n in ast.walk(t):
+                if isinstance(n, ast.Constant) and isinstance(n.value, str) and id(n) not in doc:
+                    for w in re.findall(r"[A-Za-z_#][\w.\-]{1,20}", n.value) if len(n.value) <= 600 else []:
+                        if is_plain_word(w):
+                            words.add(w)
+        _VOCAB = sorted(words)
+    return _VOCAB
+
+
+def meta_dict(rng: random.Random) -> dict:
+    """a flat-ish dict whose keys and values are words the library knows (coding, version, format, class, ...), codec names
+    and some non-ASCII text: ordinary data that resembles file metadata"""
+    voc = source_vocab()
+    d: dict = {}
+    for _ in range(rng.randint(2, 6)):
+        k = rng.choice(voc) if rng.random() < 0.7 else rng.choice(["coding", "encoding", "version", "format", "filetype", "class"])
+        r = rng.random()
+        if r < 0.35:
+            v: Any = rng.choice(CODECS)
+        elif r < 0.6:
+            v = rng.choice(voc)
+        elif r < 0.85:
+            v = rng.choice(["Jörg Müller", "é", "naïve café", "中文", "Ωmega", "ж"])
+        else:
+            v = rng.choice([1, 2.0, True, ["utf-16", "é"], {"coding": rng.choice(CODECS), "name": "Æ"}])
+        d[k] = v
+    return d
+
+
 def word(rng: random.Random, maxlen: int = 8, exotic: float = 0.1) -> str:
     """a single bare word that is not number-/bool-/none-like and contains no reserved word"""
     while True:
@@ -70,7 +122,7 @@ def boolnone_like(rng: random.Random) -> str:
 def text(rng: random.Random, cls: str | None = None) -> str:
     """a single-line string leaf of a given class (see DESIGN 7 / C01)"""
     classes = ["word", "empty", "multi", "path", "delim", "nested1", "nested2", "backslash", "exotic", "numlike",
-               "boolnone", "placeholderish", "punct", "padded"]
+               "boolnone", "placeholderish", "punct", "padded", "linesep", "vocab"]
     cls = cls or rng.choice(classes)
     if cls == "word":
         return word(rng)
@@ -109,6 +161,11 @@ def text(rng: random.Random, cls: str | None = None) -> str:
     if cls == "padded":
         w = word(rng)
         return rng.choice([" " + w, w + " ", "  " + w + "  ", "\t" + w, w + "\t", " ", "   ", "\u00a0" + w, w + "\u2003"])
+    if cls == "linesep":
+        w = word(rng, 5)
+        return w + rng.choice(["", " "]) + rng.choice(LINESEPS) + rng.choice(["", " "]) + word(rng, 5)
+    if cls == "vocab":
+        return rng.choice(source_vocab() + CODECS)
     if cls == "punct":
         return "".join(rng.choice("=#%&!?*@^~|+-_.") for _ in range(rng.randint(1, 4))) + word(rng, 3)
     raise ValueError(cls)
